@@ -42,6 +42,7 @@ RULE = (
     ' Round 9: `reader_task` (another task suspended in gateway.listen() at exit).'
     ' Round 11: `enter_task` / `exit_task` (the context is entered / left by a short-lived task of its own); `late_change` (the registry changes while a slow disconnect is under way: the file equals the registry when the context has been left).'
     ' Round 10: `traffic` (that task handles a message that changes nothing every `traffic` virtual seconds while the deadlines are checked).'
+    ' Round 12: `mutate=clear`; `eager_tasks`; `between_edit`; deadline checks re-read while a save is rewriting the file.'
 )
 ASSUMPTIONS = [
     "threads are replaced by an inline executor: outcomes are the same at file-operation granularity, thread races inside aiofiles are not explored",
